@@ -271,14 +271,15 @@ Proof.
   - other z x E. destruct x; apply H.
 Qed.
 
-Lemma out_phase_invWB c x s : InvWB c s -> e_alive (cn s x) = true ->
-  match out_phase c x s with
+Lemma out_phase_invWB c x b s : InvWB c s -> e_alive (cn s x) = true ->
+  match out_phase c x b s with
   | (s1, true) => InvWB c (close x true s1)
   | (s1, false) => InvWB c s1
   end.
 Proof.
   intros H Ha.
-  pose proof (a_loop_aq (S (opt_len (e_cur (ec (gep s x))) + length (e_sq (ec (gep s x))) + length (e_aq (ec (gep s x)))))
+  pose proof (a_loop_aq (opt_len (e_cur (ec (gep s x))) +
+                         N.to_nat (N.min b (len (e_sq (ec (gep s x))) + len (e_aq (ec (gep s x))) + 1)))%nat
                 (c_max (ecf c x)) (wgate (glo s x))
                 (mkLst (e_cur (ec (gep s x))) (e_sq (ec (gep s x))) (e_aq (ec (gep s x))) (e_sk (ec (gep s x)))
                        (carrier (glo s x)) (e_hints (ec (gep s x))) (bad s))) as Q.
@@ -306,12 +307,12 @@ Proof.
     + other z x E. destruct x; apply H.
 Qed.
 
-Lemma conn_poll_invWB c x s : InvWB c s -> InvWB c (conn_poll c x s).
+Lemma conn_poll_invWB c x b s : InvWB c s -> InvWB c (conn_poll c x b s).
 Proof.
   intros H. unfold conn_poll. fold (cn s x). destruct (e_alive (cn s x)) eqn:Ea; [|exact H].
   apply (conn_loop_gen (InvWB c)); auto.
   - intros. apply close_invWB; assumption.
-  - intros s0 H0 Ha0 _. apply out_phase_invWB; assumption.
+  - intros s0 b0 H0 Ha0 _. apply out_phase_invWB; assumption.
   - intros s0 H0 _ _ z. destruct x, z; apply H0.
   - intros s0 H0 _ _ z. destruct x, z; apply H0.
   - intros s0 n rest H0 _ _ _ _ _ _ z. destruct x, z; apply H0.
@@ -402,7 +403,7 @@ Proof.
   - unfold h_poll, h_poll_gen. destruct (budget =? 0); [exact H|].
     destruct (e_evs (eh (gep s x))) as [|[k|k] es]; cbn [fst].
     + destruct (h_scan _ _ _ _) as [r q]. destruct r; cbn [fst]; unfold hand_over;
-        match goal with |- context [if ?b then _ else _] => destruct b end; intros z; destruct x, z; apply H.
+        match goal with |- context [if ?g then _ else _] => destruct g end; intros z; destruct x, z; apply H.
     + intros z; destruct x, z; apply H.
     + intros z; destruct x, z; apply H.
   - pose proof (open_stream_invWB c x s HI H). destruct (open_stream x s). assumption.
